@@ -47,6 +47,7 @@ Section Rev.
   Hypothesis Hds : 0 <= dictSize.
   Hypothesis Hext : is_extdict dict = false -> dictSize = 0.
   Hypothesis Hp64 : is_prefix64k dict = true -> lowPrefix <= -65535.
+  Hypothesis Hsrc : forall a, 0 <= get srcm a < 256.
 
   Notation vget := (vget lowPrefix dictm dictSize).
   Notation hroom := (hroom dict dictSize).
@@ -475,6 +476,43 @@ Section Rev.
       + assert (Hrl : read_len (tok / 16) r = Some (tok / 16, r)).
         { unfold read_len. assert (E : (tok / 16 =? 15) = false) by fin. rewrite E. reflexivity. }
         apply (HL (ip s + 1) _ (tok / 16) r Hrl); try assumption; lia.
+  Qed.
+
+  (* ---------- the position reported with an error never precedes the current one ---------- *)
+  Lemma rvl_loop_ip : forall fuel p len kf ilimit, 0 <= len ->
+    let '(o, p', _) := rvl_loop srcm iend fuel p len kf ilimit in
+    p <= p' /\ match o with Some l => 0 <= l | None => True end.
+  Proof.
+    induction fuel as [|f IH]; intros p len kf ilimit Hlen; cbn [rvl_loop]; [split; [lia | exact I]|]. cbv zeta.
+    pose proof (Hsrc p) as Hb.
+    destruct (p + 1 >? ilimit); [split; [lia | exact I]|].
+    destruct (get srcm p =? 255); [|split; lia].
+    specialize (IH (p + 1) (len + get srcm p) (kf && rd_src iend p 1) ilimit ltac:(lia)).
+    destruct (rvl_loop srcm iend f (p + 1) (len + get srcm p) (kf && rd_src iend p 1) ilimit) as [[l p'] k'].
+    destruct IH as [H1 H2]. split; [lia | exact H2].
+  Qed.
+
+  Lemma rvl_ip p ilimit ic kf :
+    let '(o, p', _) := rvl srcm iend p ilimit ic kf in
+    p <= p' /\ match o with Some l => 0 <= l | None => True end.
+  Proof.
+    unfold rvl. destruct (ic && (p >=? ilimit)); [split; [lia | exact I]|]. apply rvl_loop_ip. lia.
+  Qed.
+
+  Lemma safe_top_err_ip s :
+    match safe_top false dict srcm iend oend lowPrefix rlow dictm dictSize s with
+    | Err s' => ip s <= ip s' | _ => True end.
+  Proof.
+    pose proof (Hsrc (ip s)) as Htok.
+    assert (Hn : 0 <= get srcm (ip s) / 16) by (apply Z.div_pos; lia).
+    unfold safe_top, safe_lit, copy_match_lbl, safe_match, ext_match. cbv zeta. cbn [ip op dm ok andb negb orb].
+    repeat match goal with
+    | |- context [rvl srcm iend ?p ?il ?ic ?k] =>
+        let H := fresh "Hr" in pose proof (rvl_ip p il ic k) as H;
+        destruct (rvl srcm iend p il ic k) as [[[?|] ?] ?]; destruct H
+    | |- context [first8 ?m ?d ?ss ?o] => destruct (first8 m d ss o)
+    | |- context [if ?c then _ else _] => destruct c
+    end; cbn [ip]; try exact I; lia.
   Qed.
 
 End Rev.
